@@ -220,6 +220,14 @@ def locator_cases(rng, n, exhaustive=False):
                     pre[p + 4:p + 8] = b"XFIR"
                 data = bytes(pre[:64]) + hdr
                 out.append(Case(kind="locator-exhaustive", spec=dict(decoy_at=p, flavour=flavour), lines=[f"riff locate {hx(data)}"], expect=[str(first_genuine(data))]))
+    if exhaustive:
+        # every value of every byte of the genuine header's length field (the locator must not care what the length bytes are:
+        # line ends, NUL, regex metacharacters ...), behind a prefix that holds one decoy
+        for pos in range(4):
+            for b in range(256):
+                ln = bytearray(b"\x10\x00\x00\x00"); ln[pos] = b
+                data = b"MZ" + bytes(9) + b"XFIR" + bytes(5) + b"XFIR" + bytes(ln) + b"39VM" + b"imap" + bytes(8)
+                out.append(Case(kind="locator-length-bytes", spec=dict(pos=pos, byte=b), lines=[f"riff locate {hx(data)}"], expect=[str(first_genuine(data))]))
     for _ in range(n):
         pre = rand_prefix(rng, "<")
         data = pre + hdr + bytes(rng.randrange(256) for _ in range(rng.randrange(0, 30)))
